@@ -73,6 +73,22 @@ def inlined(func):
             res = func
         from .normalize import normalize
         res = normalize(res)
+        # normal forms can expose further helper calls (f(*map(helper, xs)) is
+        # f(*[helper(x) for x in xs])): one more round
+        if res is not func:
+            try:
+                if not hasattr(res, 'parent') or res.parent is None:
+                    res.parent = getattr(func, 'parent', None)
+                inl2 = Inliner(mod, mod.relpath, cls)
+                new2 = inl2.inline_function(res)
+                if inl2.inlined:
+                    new2.inlined_helpers = list(getattr(res, 'inlined_helpers', [])) + \
+                        list(inl2.inlined)
+                    res = normalize(new2)
+                    if not hasattr(res, 'inlined_helpers'):
+                        res.inlined_helpers = new2.inlined_helpers
+            except RecursionError:
+                pass
     _inl_cache[key] = res
     _inl_cache[id(res)] = res
     return res
